@@ -279,6 +279,164 @@ fn run_par_case(c: &ParCase) -> Result<bool, String> {
     Ok(repeated && c.threads >= 2 && c.items.len() >= 40)
 }
 
+/* ------------------------------- long parallel inputs that repeat keys ------------------------------- */
+
+/// Long inputs for the rayon paths in which most items REPLACE an entry (small alphabet) while every
+/// `unique_every`-th position carries the only occurrence of its key: whatever a worker does per
+/// job, per batch or per so-many replacements, it must not lose, invent or misattribute an item.
+/// Item i carries the value i, so the oracle can tell which item a stored value came from.
+#[derive(Clone, Debug, Serialize, Deserialize)]
+pub struct ParDupCase {
+    pub hmode: HMode,
+    pub threads: u8,
+    pub n: u32,
+    pub alphabet: u32,
+    pub unique_every: u32,
+    /// 0: rayon's own splitting; otherwise the minimum length of a leaf job
+    pub min_len: u32,
+    /// true: the iterator is made unindexed (filter)
+    pub unindexed: bool,
+    /// keys of the alphabet below this bound are in the map before the call
+    pub pre: u32,
+}
+
+fn pardup_strategy() -> impl Strategy<Value = ParDupCase> {
+    (
+        prop_oneof![Just(HMode::Mix), Just(HMode::Identity)],
+        prop_oneof![3 => Just(1u8), 2 => Just(2u8), 2 => 3u8..=8],
+        prop_oneof![3 => 8_200u32..20_000, 3 => 20_000u32..80_000, 1 => 80_000u32..200_000],
+        prop_oneof![2 => 1u32..4, 3 => 4u32..64, 1 => 64u32..400],
+        2u32..8,
+        prop_oneof![3 => Just(0u32), 1 => Just(4_500u32), 1 => Just(10_000u32), 1 => Just(1_000_000u32)],
+        any::<bool>(),
+        0u32..80,
+    )
+        .prop_map(|(hmode, threads, n, alphabet, unique_every, min_len, unindexed, pre)| ParDupCase { hmode, threads, n, alphabet, unique_every, min_len, unindexed, pre })
+}
+
+impl ParDupCase {
+    fn key(&self, i: u32) -> u32 {
+        if i % self.unique_every == self.unique_every - 1 {
+            1_000_000 + i
+        } else {
+            (i.wrapping_mul(0x9E37_79B1) >> 7) % self.alphabet
+        }
+    }
+    fn items(&self) -> Vec<(u32, u32)> {
+        (0..self.n).map(|i| (self.key(i), i)).collect()
+    }
+}
+
+fn run_pardup_case(c: &ParDupCase) -> Result<(), String> {
+    set_default_hmode(c.hmode);
+    let items = c.items();
+    let item_keys: BTreeSet<u32> = items.iter().map(|x| x.0).collect();
+    let pre_keys: Vec<u32> = (0..c.pre.min(c.alphabet + 10)).collect();
+    const OLD: u32 = u32::MAX;
+    let check = |what: &str, got: &BTreeMap<u32, u32>, len: usize, with_pre: bool| -> Result<(), String> {
+        let mut want: BTreeSet<u32> = item_keys.clone();
+        if with_pre {
+            want.extend(pre_keys.iter().copied());
+        }
+        if len != want.len() || got.len() != want.len() {
+            let missing: Vec<u32> = want.iter().filter(|k| !got.contains_key(k)).take(5).copied().collect();
+            let extra: Vec<u32> = got.keys().filter(|k| !want.contains(k)).take(5).copied().collect();
+            return Err(format!("{}: {} items over {} distinct keys were supplied; the map reports len {} and holds {} keys (missing e.g. {:?}, not supplied e.g. {:?})", what, c.n, want.len(), len, got.len(), missing, extra));
+        }
+        for (k, v) in got {
+            if item_keys.contains(k) {
+                // must be the value of an item that carried this key (an entry present before is replaced)
+                if *v == OLD || *v >= c.n || c.key(*v) != *k {
+                    return Err(format!("{}: key {} maps to {}, which no item supplied for it", what, k, v));
+                }
+            } else if *v != OLD {
+                return Err(format!("{}: key {} (present before the call, not among the items) now maps to {}", what, k, v));
+            }
+        }
+        Ok(())
+    };
+    let pool = rayon::ThreadPoolBuilder::new().num_threads(c.threads as usize).build().map_err(|e| e.to_string())?;
+    let r = catch_unwind(AssertUnwindSafe(|| -> Result<(), String> {
+        pool.install(|| -> Result<(), String> {
+            let mk = || {
+                let m = UM::with_hasher(HB(c.hmode));
+                for k in &pre_keys {
+                    m.pin().insert(*k, OLD);
+                }
+                m
+            };
+            macro_rules! source {
+                () => {{
+                    let it = items.clone().into_par_iter().with_min_len((c.min_len as usize).clamp(1, items.len().max(1)));
+                    it
+                }};
+            }
+            if c.unindexed {
+                let m: UM = source!().filter(|_| true).collect();
+                check("par collect (unindexed source)", &dump_um(&m), m.len(), false)?;
+                let mut a = mk();
+                a.par_extend(source!().filter(|_| true));
+                check("par_extend on the map (unindexed source)", &dump_um(&a), a.len(), true)?;
+                let b = mk();
+                (&b).par_extend(source!().filter(|_| true));
+                check("par_extend on &map (unindexed source)", &dump_um(&b), b.len(), true)?;
+                let d = mk();
+                d.pin().par_extend(source!().filter(|_| true));
+                check("par_extend on a pinned reference (unindexed source)", &dump_um(&d), d.len(), true)?;
+            } else {
+                let m: UM = source!().collect();
+                check("par collect", &dump_um(&m), m.len(), false)?;
+                let mut a = mk();
+                a.par_extend(source!());
+                check("par_extend on the map", &dump_um(&a), a.len(), true)?;
+                let b = mk();
+                (&b).par_extend(source!());
+                check("par_extend on &map", &dump_um(&b), b.len(), true)?;
+                let d = mk();
+                d.pin().par_extend(source!());
+                check("par_extend on a pinned reference", &dump_um(&d), d.len(), true)?;
+            }
+            // sets: the same keys
+            let keys: Vec<u32> = items.iter().map(|x| x.0).collect();
+            let mut want: BTreeSet<u32> = item_keys.clone();
+            let s0: US = keys.clone().into_par_iter().with_min_len((c.min_len as usize).clamp(1, keys.len().max(1))).collect();
+            let dump = |s: &US| -> BTreeSet<u32> {
+                let g = s.guard();
+                s.iter(&g).copied().collect()
+            };
+            if dump(&s0) != want || s0.len() != want.len() {
+                return Err(format!("par collect into a set: {} distinct elements supplied, the set holds {} (len {})", want.len(), dump(&s0).len(), s0.len()));
+            }
+            want.extend(pre_keys.iter().copied());
+            let mks = || {
+                let s = US::with_hasher(HB(c.hmode));
+                for k in &pre_keys {
+                    s.pin().insert(*k);
+                }
+                s
+            };
+            let mut s1 = mks();
+            s1.par_extend(keys.clone().into_par_iter().with_min_len((c.min_len as usize).clamp(1, keys.len().max(1))));
+            let s2 = mks();
+            (&s2).par_extend(keys.clone().into_par_iter());
+            let s3 = mks();
+            s3.pin().par_extend(keys.clone().into_par_iter().filter(|_| true));
+            for (n, s) in [("set par_extend", &s1), ("&set par_extend", &s2), ("pinned set par_extend", &s3)] {
+                let got = dump(s);
+                if got != want || s.len() != want.len() {
+                    let missing: Vec<u32> = want.iter().filter(|k| !got.contains(k)).take(5).copied().collect();
+                    return Err(format!("{}: {} distinct elements expected, the set holds {} (len {}); missing e.g. {:?}", n, want.len(), got.len(), s.len(), missing));
+                }
+            }
+            Ok(())
+        })
+    }));
+    match r {
+        Ok(r) => r,
+        Err(e) => Err(format!("a parallel collect / extend of a long input panicked: {}", crate::sched::panic_msg(&e))),
+    }
+}
+
 /* ------------------------------- size hints ------------------------------- */
 
 /// a deserializer that hands out `pairs` (as a map) or their keys (as a sequence) and reports
@@ -507,6 +665,11 @@ fn c19_shard(ctx: &Ctx, out: &mut ShardOut) {
         let i = run_doc_case(c).map_err(|m| CaseFail { prop: "C19".into(), msg: format!("[C19] {}", m) })?;
         Ok(CaseInfo { nontrivial: i.repeated_key && i.valid, classes: vec![("documents_repeating_a_key", i.repeated_key as u64), ("documents_well_formed", i.valid as u64), ("documents_malformed_or_ill_typed", (!i.valid) as u64)], evaluations: 1, sub_hashes: vec![] })
     });
+    super::concchecks2::c19_conc_run(ctx, out);
+    drive(ctx, "pardup", ctx.shard_seed(4), ctx.share(ctx.by_tier(96, 3_000)) as u32, pardup_strategy(), out, |c| {
+        run_pardup_case(c).map_err(|m| CaseFail { prop: "C19".into(), msg: format!("[C19] {}", m) })?;
+        Ok(CaseInfo { nontrivial: true, classes: vec![("long_parallel_inputs_repeating_keys", 1), ("items_in_long_parallel_inputs", c.n as u64)], evaluations: 1, sub_hashes: vec![] })
+    });
     drive(ctx, "par", ctx.shard_seed(2), ctx.share(ctx.by_tier(3000, 40_000)) as u32, par_strategy(), out, |c| {
         let nt = run_par_case(c).map_err(|m| CaseFail { prop: "C19".into(), msg: format!("[C19] {}", m) })?;
         Ok(CaseInfo { nontrivial: nt, classes: vec![("parallel_runs", 1), ("parallel_runs_with_a_key_supplied_more_than_once", nt as u64)], evaluations: 1, sub_hashes: vec![] })
@@ -523,6 +686,11 @@ fn c19_replay(sub: &str, case: &Value) -> Result<(), CaseFail> {
         "hint" => {
             let c: HintCase = serde_json::from_value(case.clone()).map_err(bad)?;
             run_hint_case(&c).map(|_| ()).map_err(|m| CaseFail { prop: "C19".into(), msg: format!("[C19] {}", m) })
+        }
+        "ser-conc" | "ser-first" | "ser-resize" => super::concchecks2::c19_conc_replay(sub, case),
+        "pardup" => {
+            let c: ParDupCase = serde_json::from_value(case.clone()).map_err(bad)?;
+            run_pardup_case(&c).map_err(|m| CaseFail { prop: "C19".into(), msg: format!("[C19] {}", m) })
         }
         "par" => {
             let c: ParCase = serde_json::from_value(case.clone()).map_err(bad)?;
